@@ -12,7 +12,9 @@ from . import c11
 RULE = ("Generated: a delegation history with signature support (C11 generator), a key of it, an extension list = the key's fixed "
         "slots (equal values, possibly another representative mod r) plus a drawn subset of its free slots with drawn values, a "
         "message scalar from the boundary mixture in [0,2^256), and one perturbation: none, message+1, message+r (must still verify), "
-        "another list (one value changed / slot dropped / slot added), a hidden slot of the key set, each signature component shifted "
+        "another list (one value changed / slot dropped / slot added), entries of the signed and of the verified list carrying the "
+        "omit-from-keys flag together with their value (the flag concerns key derivation only: signing and verification must use every "
+        "listed value), a hidden slot of the key set, each signature component shifted "
         "by a generator, verification through the precomputed form, signing through sign_precomputed with and without the list. "
         "Oracle: verify <=> (list, message mod r) equal the signed ones (absent = 0, values mod r); direct and precomputed forms agree. "
         "Non-trivial = any perturbation, or an extension that fills a free slot lying behind two or more fixed entries.")
@@ -28,7 +30,8 @@ def cases(draw):
     return {"h": h, "key": draw(st.integers(0, 7)), "fill": draw(st.lists(st.booleans(), min_size=8, max_size=8)),
             "vals": [draw(c11.value()) for _ in range(8)], "msg": draw(gens.scalars(256))[1], "pert": draw(st.sampled_from(PERT)),
             "slot": draw(st.integers(0, 7)), "v": draw(c11.value()), "stream": draw(st.binary(min_size=0, max_size=40)), "seed": draw(st.integers(0, 2**32)),
-            "alt": draw(st.booleans())}
+            "alt": draw(st.booleans()), "flag_sign": draw(st.integers(0, 255)) if draw(st.integers(0, 3)) == 0 else 0,
+            "flag_verify": draw(st.integers(0, 255)) if draw(st.integers(0, 5)) == 0 else 0}
 
 
 def eff(entries, l):
@@ -57,19 +60,24 @@ def check(ctx, lib, c):
                 ent[i] = c["vals"][i]
                 filled += 1
         signed = sorted(ent.items())
+        fs, fv = c.get("flag_sign", 0), c.get("flag_verify", 0)
+
+        def flagged(entries, mask):
+            # entry (idx, value, flag): flag set on the slots selected by mask, the value is kept
+            return [(i, v, bool(mask >> i & 1)) for i, v in entries]
         msg = c["msg"]
         pert = c["pert"]
         lib.set_random(c["stream"], c["seed"])
-        pre = W.precompute(ex.params, Attrs(signed))
+        pre = W.precompute(ex.params, Attrs(flagged(signed, fs)))
         if pert == "sign_pre":
-            sig = W.sign(ex.params, k["h"], Attrs(signed), msg, pre=pre)
+            sig = W.sign(ex.params, k["h"], Attrs(flagged(signed, fs)), msg, pre=pre)
         elif pert == "sign_pre_null":
             # without a list only the key's own pattern can be signed
             signed = sorted(dict(fixed).items())
             pre = W.precompute(ex.params, Attrs(signed))
             sig = W.sign(ex.params, k["h"], None, msg, pre=pre, attrs_null=True)
         else:
-            sig = W.sign(ex.params, k["h"], Attrs(signed), msg)
+            sig = W.sign(ex.params, k["h"], Attrs(flagged(signed, fs)), msg)
         vlist, vmsg = dict(signed), msg
         slot = c["slot"] % l
         if pert == "msg+1":
@@ -107,8 +115,8 @@ def check(ctx, lib, c):
             ctypes.memmove(sig, a0 + a1, len(a0 + a1))
         vent = sorted(vlist.items())
         same = eff(vent, l) == eff(signed, l) and vmsg % R == msg % R and pert not in ("sig_a0", "sig_a1")
-        ok = W.verify(ex.params, Attrs(vent), sig, vmsg)
-        ok_pre = W.verify(ex.params, None, sig, vmsg, pre=W.precompute(ex.params, Attrs(vent)))
+        ok = W.verify(ex.params, Attrs(flagged(vent, fv)), sig, vmsg)
+        ok_pre = W.verify(ex.params, None, sig, vmsg, pre=W.precompute(ex.params, Attrs(flagged(vent, fv))))
         # shape class: a filled free slot preceded by >= 2 fixed entries since the previous free slot
         deep = False
         run = 0
@@ -119,8 +127,11 @@ def check(ctx, lib, c):
                 if run >= 2 and i in ent:
                     deep = True
                 run = 0
-        ctx.count(c, pert != "none" or deep, "sig-%s%s:%s" % (pert, "-deep" if deep else "", "accept" if same else "reject"))
-        detail = lambda: "key pattern=%r signed=%r msg=%x verify list=%r msg=%x" % (pat, signed, msg, vent, vmsg)
+        fl_free = any((fs >> i & 1) and i in ent and pat[i] == FREE for i in range(l)) and pert != "sign_pre_null"
+        if fl_free:
+            ctx.event("flagged-entry-on-filled-free-slot")
+        ctx.count(c, pert != "none" or deep or fl_free, "sig-%s%s%s:%s" % (pert, "-deep" if deep else "", "-flagged" if fl_free else "", "accept" if same else "reject"))
+        detail = lambda: "key pattern=%r signed=%r (flag mask %#x) msg=%x verify list=%r (flag mask %#x) msg=%x" % (pat, signed, fs, msg, vent, fv, vmsg)
         expect(ok == same, "verify/%s/%s" % (pert, "rejected-valid" if same else "accepted-invalid"), detail)
         expect(ok_pre == ok, "verify_precomputed/disagrees", detail)
     finally:
